@@ -1,6 +1,7 @@
 import Ampy.Props.C20
 import Ampy.Props.C03
 import Ampy.Gen.SrcOkta2symb
+import Ampy.Props.C18Src
 /-!
 # C20 — the okta symbol lookup of the plots, about the definition regenerated from /repo's source
 
@@ -53,6 +54,28 @@ theorem C20_src_symb_refusal (v : Int) (h : v < 0 ∨ 9 < v) : ∃ m, Gen.okta2s
   have h8 : v ≠ 8 := by omega
   have h9 : v ≠ 9 := by omega
   simp [Gen.okta2symb, h0, h1, h2, h3, h4, h5, h6, h7, h8, h9]
+
+/-- What the monitor's okta predicate allows lies in 0..8. -/
+theorem c18okta_range (n m : Nat) (k : Int) (h : Spec.c18okta n m k = true) : 0 ≤ k ∧ k ≤ 8 := by
+  unfold Spec.c18okta at h
+  split at h
+  · have : k = 0 := by simpa using h
+    omega
+  · split at h
+    · have : k = 8 := by simpa using h
+      omega
+    · simp only [Bool.and_eq_true, decide_eq_true_eq] at h
+      omega
+
+/-- Source to source: whatever the *translated* `perc2okta` makes of `n` hits out of `m` measurements, the *translated*
+`okta2symb` has a symbol for it in both styles - the label loops of the plot cannot be stopped by the okta column, as
+far as the two source texts (regenerated on every run) are concerned. -/
+theorem C20_src_symb_of_src_okta (n m : Nat) (hm : 0 < m) (h : n ≤ m) (b : Bool) :
+    ∃ k s, Gen.perc2okta (some ((n : Rat) / (m : Rat) * 100)) = .ok k ∧ Gen.okta2symb k b = .ok s := by
+  obtain ⟨k, hk, hs⟩ := C18_src_okta_rule n m hm h
+  obtain ⟨h0, h8⟩ := c18okta_range n m k hs
+  obtain ⟨s, hsym⟩ := C20_src_symb_total k b h0 (by omega)
+  exact ⟨k, s, hk, hsym⟩
 
 /-- Non-vacuity: the regenerated definition computes. -/
 example : Gen.okta2symb 8 true = .ok "\\eightoktas\\ " ∧ Gen.okta2symb 3 false = .ok "3" := by decide
